@@ -109,6 +109,8 @@ class Origin:
                     base = ('field', base, e)
                 elif e in ('opaque', 'unbinder'):
                     continue
+                elif base[0] == 'agg' and base[1] == 'tuple' and re.match(r'^\.\d+$', e) and int(e[1:]) < len(base[2]):
+                    base = base[2][int(e[1:])]   # (a, b).0 is a
                 else:
                     base = ('field', base, e)
             elif 'dc' in e:
